@@ -25,18 +25,30 @@ def main(argv=None):
     mod = importlib.import_module('vf.checks.' + pid.lower())
 
     if args.replay:
-        core.load_repo()
+        # A replay re-executes the recorded tier and seed (the workloads are
+        # seeded) with evidence redirected, and reports whether the recorded
+        # mechanism key shows up again.
+        import subprocess
+        import tempfile
         with open(args.replay) as fh:
             rep = json.load(fh)
-        print(json.dumps(rep, indent=1)[:6000])
-        if hasattr(mod, 'replay'):
-            run = core.Run(pid, 'quick', rep.get('seed', 0))
-            mod.replay(run, rep)
-            bad = [k for k in run.violations]
-            print('replay: %s' % ('VIOLATION reproduced: %s' % bad if bad
-                                  else 'not reproduced'))
-            return 1 if bad else 0
-        return 0
+        print(json.dumps(rep, indent=1)[:4000])
+        tmp = tempfile.mkdtemp(prefix='vf-replay-')
+        env = dict(os.environ, VERIF_SEED=str(rep.get('seed', 0)),
+                   VERIF_OUT=tmp)
+        p = subprocess.run([sys.executable, '-m', 'vf.cli', pid, '--tier',
+                            rep.get('tier', 'quick')], cwd=core.VERIF_DIR,
+                           env=env, stdout=subprocess.PIPE,
+                           stderr=subprocess.STDOUT)
+        out = p.stdout.decode('utf-8', 'replace')
+        again = ('key=%s:' % rep['key']) in out or \
+            ('key=%s ' % rep['key']) in out
+        import shutil
+        shutil.rmtree(tmp, ignore_errors=True)
+        print('replay of %s (tier %s, seed %s): %s' % (
+            rep['key'], rep.get('tier'), rep.get('seed'),
+            'REPRODUCED' if again else 'not reproduced in this run'))
+        return 1 if again else 0
 
     shards_cfg = getattr(mod, 'SHARDS', {})
     nshards = args.shards or shards_cfg.get(args.tier, 1)
